@@ -18,11 +18,15 @@ void harness(void) {
   vm_alloc_install();
   int init = ND_INT();                       /* any pint */
   int mode = ND_RANGE(0, 1);
-  int old_obj = -1;
+  int old_obj = -1, v0_ghost = 0;
 #ifdef ON_EXISTING
   /* the name exists with an arbitrary non-negative value, created by the other process */
   int v0 = ND_INT();
   VASSUME(v0 >= 0);
+#ifdef SYSV
+  VASSUME(v0 <= 32767);
+#endif
+  v0_ghost = v0;
   vk_cur = 1;
   PSemaphore *o = p_semaphore_new("a", v0, P_SEM_ACCESS_OPEN, NULL);
   VASSERT(o != NULL, "prologue: semaphore created");
@@ -36,6 +40,17 @@ void harness(void) {
 #endif
   vk_cur = 0;
   PSemaphore *s = p_semaphore_new("a", init, (PSemaphoreAccessMode) mode, NULL);
+#ifdef SYSV
+  /* System V: semaphore values are limited to SEMVMX = 32767 by the platform (semctl SETVAL -> ERANGE); a larger
+   * initial value cannot be honoured: the call must fail cleanly instead of publishing another value */
+  if (init > 32767) {
+    VASSERT(s == NULL, "System V: initial value above SEMVMX is refused");
+    int o2 = vk_sem_linked(0);
+    VASSERT(o2 < 0 || (o2 == old_obj && vk_sem_value(o2) == v0_ghost), "System V: refused call leaves no new semaphore and does not change an existing one");
+    VWITNESS("initial value above SEMVMX refused");
+    return;
+  }
+#endif
   if (init < 0) {
     VASSERT(s == NULL, "negative initial value is an invalid argument: NULL");
     VASSERT(vk_sem_linked(0) == old_obj, "rejected call neither creates nor replaces the semaphore");
@@ -45,7 +60,11 @@ void harness(void) {
   VASSERT(s != NULL, "p_semaphore_new succeeds for every non-negative initial value");
   VASSUME(s != NULL);
   int obj = vk_sem_linked(0);
+#ifdef SYSV
+  VASSERT(obj >= 0, "the counter is published under the name");       /* System V CREATE on an existing name: SETVAL on the same set */
+#else
   VASSERT(obj >= 0 && obj != old_obj, "a fresh counter is published under the name");
+#endif
   VASSUME(obj >= 0);
   VASSERT(vk_sem_value(obj) == init, "fresh counter holds EXACTLY the given initial value (all 2^31 non-negative values)");
   /* a later OPEN with another symbolic value */
@@ -53,6 +72,7 @@ void harness(void) {
   vk_cur = 1;
   PSemaphore *l = p_semaphore_new("a", init2, P_SEM_ACCESS_OPEN, NULL);
   VASSERT((l != NULL) == (init2 >= 0), "later OPEN succeeds iff its (ignored) initial value is a valid argument");
+  VASSUME((l != NULL) == (init2 >= 0));
   VASSERT(vk_sem_linked(0) == obj && vk_sem_value(obj) == init, "later OPEN sees the same counter, value unchanged");
   if (l != NULL && init > 0) {
     vk_expect_noblock = 1;
@@ -61,11 +81,19 @@ void harness(void) {
     VASSERT(ok == TRUE && vk_sem_value(obj) == init - 1, "the later handle operates on that counter");
   }
   VWITNESS("fresh counter checked");
+#ifndef SYSV
   if (init > 1000000 && init2 != init && init2 >= 0) VWITNESS("large initial value, later OPEN with a different one");
+#else
+  if (init > 20000 && init2 != init && init2 >= 0) VWITNESS("large initial value, later OPEN with a different one");
+#endif
+#ifndef SYSV
   if (init == 2147483647) VWITNESS("initial value INT_MAX");
+#else
+  if (init == 32767) VWITNESS("initial value SEMVMX");
+#endif
   if (init == 0) VWITNESS("initial value 0");
 #ifndef ON_EXISTING
-  if (mode == P_SEM_ACCESS_OPEN && init > 70000) VWITNESS("OPEN mode on a missing name, large value");
-  if (mode == P_SEM_ACCESS_CREATE && init > 70000) VWITNESS("CREATE mode on a missing name, large value");
+  if (mode == P_SEM_ACCESS_OPEN && init > 7000) VWITNESS("OPEN mode on a missing name, large value");
+  if (mode == P_SEM_ACCESS_CREATE && init > 7000) VWITNESS("CREATE mode on a missing name, large value");
 #endif
 }
